@@ -437,6 +437,7 @@ class SK(object):
         self.generic_eq = 0         # number of ==/!= tests between an abstract float and a number decided by genericity
         self.exact = False          # exact mode: literal initial fills take part in arithmetic as their numbers (symbolic drivers)
         self.text = False           # text mode: strings are concrete (str(), +, join are faithful; an abstract float prints as <label>)
+        self.printed = {}           # text mode: printed form of an abstract float -> the token (float() of that text gives the token back)
         self.copies = {}            # id(source list) -> (source, [deep copies made of it]); working-copy discipline (SS1)
         self.stale = []             # (node, index): element of a copied source read after the working copy's element changed
 
@@ -514,6 +515,11 @@ class SK(object):
                 return BUILTINS[e.attr]
             if b.name == 'ext:math':
                 return Py(lambda sk, node, *a: math_fn(e.attr, *a), 'math.' + e.attr)
+            if b.name == 'ext:os' and e.attr == 'path':
+                return ModRef('ext:os.path')
+            if b.name == 'ext:os.path' and e.attr in ('splitext', 'basename', 'dirname', 'join'):
+                import os.path as _osp
+                return Py(lambda sk, node, *a, _f=getattr(_osp, e.attr): _f(*a), 'os.path.' + e.attr)          # pure functions of their string arguments
             if b.name.startswith('ext:'):
                 raise Unsupported('external %s.%s' % (b.name, e.attr))
             return self.lookup_global(b.name, e.attr)
@@ -564,7 +570,8 @@ class SK(object):
         if isinstance(b, set) and e.attr in ('add', 'update', 'discard', 'remove', 'clear'):
             return Py(lambda sk, node, *a, _b=b, _n=e.attr: getattr(_b, _n)(*a), 'set.' + e.attr)
         if isinstance(b, str) and self.text and e.attr in ('join', 'format', 'strip', 'split', 'rstrip', 'lstrip'):
-            return Py(lambda sk, node, *a, _b=b, _n=e.attr, **k: getattr(_b, _n)(*[list(x) if hasattr(x, '__next__') else x for x in a], **k), 'str.' + e.attr)
+            return Py(lambda sk, node, *a, _b=b, _n=e.attr, **k: getattr(_b, _n)(*[fmt_arg(sk, x) if _n == 'format' else (list(x) if hasattr(x, '__next__') else x) for x in a],
+                                                                               **{kk: (fmt_arg(sk, vv) if _n == 'format' else vv) for kk, vv in k.items()}), 'str.' + e.attr)
         if isinstance(b, str) and e.attr in ('format', 'join'):
             return Py(lambda sk, node, *a, **k: '', 'str')
         if isinstance(b, str) and e.attr in ('endswith', 'startswith', 'lower', 'upper'):
@@ -1181,10 +1188,47 @@ def _str(sk, n, *a):
         return ''
     x = a[0]
     if isinstance(x, Tok):
-        return '<%s>' % ','.join(str(l) for l in sorted(x.dep, key=repr)) if x.dep else '<?>'
+        return print_token(sk, x)
     if isinstance(x, (int, float, str)):
         return str(x)
+    if isinstance(x, Fraction):
+        return str(int(x)) if x.denominator == 1 else repr(float(x))
     raise Unsupported('str() of %s' % type(x).__name__)
+
+
+def print_token(sk, x):
+    """the printed form of an abstract float: a label without white space that reads back (float()) as the very same token"""
+    if isinstance(x, (Ord, Gap)) or type(x).__name__ in ('Sym', 'Mono') or not x.dep:
+        lab = '<%s#%d>' % (type(x).__name__.lower(), len(sk.printed)) if not isinstance(x, Ord) else '<ord:%r>' % (x.rank,)
+        for k, v in sk.printed.items():
+            if v is x:
+                return k
+    else:
+        lab = '<%s>' % ','.join(str(l).replace(' ', '') for l in sorted(x.dep, key=repr))
+    sk.printed.setdefault(lab, x)
+    return lab
+
+
+class _Printed(object):
+    """argument of str.format in text mode: an abstract float prints as its label whatever the format specification"""
+    def __init__(self, lab):
+        self.lab = lab
+
+    def __format__(self, spec):
+        return self.lab
+
+    def __str__(self):
+        return self.lab
+
+
+def fmt_arg(sk, x):
+    if isinstance(x, Tok):
+        return _Printed(print_token(sk, x))
+    if isinstance(x, Fraction):
+        return int(x) if x.denominator == 1 and False else float(x)
+    if hasattr(x, '__next__'):
+        return list(x)
+    return x
 
 
 def _float(sk, n, x):
@@ -1199,7 +1243,19 @@ def _float(sk, n, x):
     if x is None or isinstance(x, list):
         raise Violation('SK2', 'float(%r)' % (x,), n)
     if isinstance(x, str):
-        raise Unsupported('float() of a formatted string')
+        if not sk.text:
+            raise Unsupported('float() of a formatted string')
+        t = x.strip()
+        if t in sk.printed:
+            return sk.printed[t]
+        try:
+            v = float(t)
+        except ValueError:
+            raise Raised('ValueError', 'could not convert string to float: %r' % t, n)
+        if sk.exact:
+            fr = Fraction(t) if all(c in '+-0123456789.' for c in t) else Fraction(v)
+            return int(fr) if fr.denominator == 1 else fr
+        return v
     return float(x)
 
 
@@ -1281,6 +1337,11 @@ BUILTINS['bisect'] = Py(_bisect(True), 'bisect')
 def _len(sk, n, x):
     if isinstance(x, Bag) and '__len__' in x._a:
         return x._a['__len__']
+    if isinstance(x, Bag) and isinstance(x._cls, tuple):
+        fl = sk.m.lookup(x._cls, '__len__', 'methods')
+        if fl is not None:
+            return sk.call(fl, [x], {})
+        raise Violation('SK2', 'len() of an object of %s.%s, which defines no __len__' % x._cls, n)
     if x is None or isinstance(x, Tok):
         raise Violation('SK2', 'len() of placeholder %r' % (x,), n)
     return len(x)
@@ -1289,6 +1350,11 @@ def _len(sk, n, x):
 def _int(sk, n, x):
     if isinstance(x, Tok):
         raise Unsupported('int() of abstract float')
+    if isinstance(x, str):
+        try:
+            return int(x)
+        except ValueError:
+            raise Raised('ValueError', 'invalid literal for int(): %r' % x, n)
     return int(x)
 
 
